@@ -226,3 +226,35 @@ Theorem C13_use_isolated_inhabited :
   /\ gtable_eqb (glob (y_hrun true (t_fix live) (hinit live_gtable) iso_ops)) live_gtable = true.
 Proof. exact iso_example. Qed.
 Print Assumptions C13_use_isolated_inhabited.
+
+(* ------------------------------------------------------------------ replacement types and values *)
+
+(** Shape of every replacement type of stdlib/restricted.go (regenerated): no exported field, no
+    embedded type, exported methods among the allowed forwards and none calling a function that ends
+    the process, every exit-like method defined and panicking, no function or method returning the
+    real type the replacement stands for (both releases' binding rows). *)
+Theorem C13_replacements_opaque :
+  replacements_opaque live sb_restricted_types = true /\ replacements_opaque live_other sb_restricted_types = true
+  /\ (1 <=? length sb_restricted_types) = true /\ (1 <=? length (guarded_reals live sb_restricted_types)) = true.
+Proof. exact replacements_opaque_live. Qed.
+Print Assumptions C13_replacements_opaque.
+
+(** For every table, every replacement type of opaque shape, every route a script has from a
+    replacement value (own methods, method values and expressions, interface assertion, embedding in
+    a script type, field selection by any name, reflect Field / FieldByName / scan / Method / Convert)
+    and every method: the call does not end the host. Unbounded over tables, field lists, names, indices. *)
+Theorem C13_routes_confined_full :
+  forall t ty fs r meth, type_opaque t ty fs = true -> y_route t ty fs r meth <> HostExit.
+Proof. exact routes_confined. Qed.
+Print Assumptions C13_routes_confined_full.
+
+(** Non-vacuity / refutation for a non-opaque shape: an embedded real logger with only the Fatal
+    overrides is rejected by the shape check and its field routes reach the real Fatal*. *)
+Theorem C13_embedded_logger_refuted :
+  type_opaque snapshot (s "logLogger") embedded_shape = false
+  /\ y_route snapshot (s "logLogger") embedded_shape (RFieldSel (s "Logger")) (s "Fatalln") = HostExit
+  /\ y_route snapshot (s "logLogger") embedded_shape (RReflField 0) (s "Fatal") = HostExit
+  /\ y_route snapshot (s "logLogger") embedded_shape RDirect (s "Fatal") = Recoverable
+  /\ y_route snapshot (s "logLogger") [(s "l", false, false, s "*log.Logger")] (RFieldSel (s "l")) (s "Fatal") = Recoverable.
+Proof. exact embedded_refuted. Qed.
+Print Assumptions C13_embedded_logger_refuted.
